@@ -20,7 +20,7 @@ static void vw_node_init(void)
     V_NODE.Nmt.Node = &V_NODE;  V_NODE.Nmt.HbCons = (CO_HBCONS *)0;
     V_NODE.Tmr.Node = &V_NODE;
     V_NODE.Tmr.APool = 0; V_NODE.Tmr.TPool = 0; V_NODE.Tmr.Acts = 0; V_NODE.Tmr.Free = 0; V_NODE.Tmr.Use = 0; V_NODE.Tmr.Elapsed = 0;
-    V_NODE.SdoBuf = V_SDOBUF;
+    V_NODE.SdoBuf = V_SDOBUF; V_SDOBUF_P = V_SDOBUF;
     for (int n = 0; n < CO_SSDO_N; n++) {
         V_NODE.Sdo[n].Node = &V_NODE;
         V_NODE.Sdo[n].Frm = H_SDOFRM[n] ? &V_FRM : (CO_IF_FRM *)0;
